@@ -481,7 +481,7 @@ pub fn c14_strategy(thorough: bool) -> BoxedStrategy<RawCase> {
         };
         RawCase { kind: "long-line".into(), pieces, handler, tcp: false, declared_beyond_sent: false, reset_storm: 0 }
     });
-    let te = (proptest::collection::vec((proptest::sample::select(vec!["chunked", "identity", "gzip", "trailers", "x"]), proptest::sample::select(vec!["", ";q=NaN", ";q=inf", ";q=-inf", ";q=1e39", ";q=-0", ";q=0.5", ";q=nan", ";q=1e-40", ";q=+1"])), 1..64), handler_strategy(), any::<bool>()).prop_map(|(els, handler, tcp)| {
+    let te = (proptest::collection::vec((proptest::sample::select(vec!["chunked", "identity", "gzip", "trailers", "x"]), proptest::sample::select(vec!["", ";q=NaN", ";q=inf", ";q=-inf", ";q=1e39", ";q=-0", ";q=0.5", ";q=nan", ";q=1e-40", ";q=+1", ";", ";a", "; ", ";;", ";=", ";q", ";q=", "; q=0.5", ";Q=0.5", ";x;q=0.1", ";\t"])), 1..64), handler_strategy(), any::<bool>()).prop_map(|(els, handler, tcp)| {
         let v = els.iter().map(|(c, q)| format!("{}{}", c, q)).collect::<Vec<_>>().join(", ");
         RawCase { kind: "te-list".into(), pieces: vec![lit(&format!("GET /te HTTP/1.1\r\nHost: h\r\nTE: {}\r\n\r\n", v))], handler, tcp, declared_beyond_sent: false, reset_storm: 0 }
     });
